@@ -25,13 +25,19 @@ THEOREMS = [
     "flipSymmetric_iff_lookup",
     "newDiagonalOffset_spec",
     "newOffset_spec",
+    "tolerance_witness",
 ]
 
 RULE = ("every matrix length 0..70 x variable-list length 0..4 x 4 constructor variants with 0/1 and dyadic entries; "
         "all 0/1 matrices for 1 variable (full) and 1..3 variables (diagonal); random right-sized matrices biased to "
         "symmetric/constant/near-symmetric/negative; every accepted interaction is looked up on all in/out patterns and a "
         "subset is sampled (with and without loop updates). Non-trivial = matrix size matches a non-empty variable list; "
-        "distinct = distinct (variant, matrix, vars).")
+        "distinct = distinct (variant, matrix, vars). Tiny / subnormal / tolerance-boundary stream: entries from "
+        "{+-5e-324, +-MIN_POSITIVE, +-1e-300, +-1e-17, 0.3-0.1-0.2, +-EPS/2, +-prev(EPS), +-EPS, +-next(EPS), +-2EPS, 1-EPS/2, 1-EPS, 1+EPS} "
+        "placed into New / Diag / NewOff (off the diagonal) matrices whose pairwise differences are exact in binary64 "
+        "(a weight in (-EPS,0) must be rejected; |a-b| = EPS is different, the float below is equal); there the "
+        "classification oracle only judges well-separated matrices, the model (which carries the tolerance) judges all. "
+        "Mode tolwit replays the Lean witness Qmc.C16.tolerance_witness (finding F23) with the literal oracle.")
 
 
 def main(ck):
@@ -41,4 +47,5 @@ def main(ck):
     if ck.cargo_build(BINS):
         cases = ck.harness("c16", ["all"])
         ck.correspond("interaction-constructors", "drv_c16", cases)
+        ck.correspond("tolerance-witness", "drv_c16", ck.harness("c16", ["tolwit"]))   # known finding F23
     return ck.finish(RULE)
